@@ -47,6 +47,7 @@ mod __verif_c02 {
     // @bounds all i64 pairs; +, -, comparison operators, and every non-integer operator (must not fold)
     // @oracle exact integer result (i128) when it fits in i64, otherwise "do not fold" (None): never a wrapped value, never a panic; comparisons are the integer order
     #[kani::proof]
+    #[kani::unwind(3)]
     fn fold_int64_add_sub_cmp() {
         let (l, r): (i64, i64) = kani::any();
         let op = any_op();
@@ -72,50 +73,64 @@ mod __verif_c02 {
             BinaryOp::GtEq => assert!(as_bool(&got) == Some(l >= r), "C02.int_ge"),
             _ => assert!(got.is_none(), "C02.int_other_ops_not_folded"),
         }
+        std::mem::forget(got);
     }
 
     // @harness tiers=quick,thorough
     // @encodes optimizer::rules::constant_folding::ConstantFolding::eval_int64
-    // @bounds all i64 pairs; / and % (division by zero and i64::MIN / -1 included)
-    // @oracle q = trunc(l / r), m = l - q*r in mathematical integers when r != 0 and q fits in i64; otherwise None; no panic
+    // @bounds ALL i64 pairs; / and % (division by zero and i64::MIN / -1 included)
+    // @oracle never panics (Kani's division-overflow check on the real `left / right`, `left % right`); division by zero is not folded; a folded quotient/remainder is an Int64
     #[kani::proof]
-    fn fold_int64_div_mod() {
+    #[kani::unwind(3)]
+    fn fold_int64_div_mod_never_panics() {
         let (l, r): (i64, i64) = kani::any();
         let is_div: bool = kani::any();
         let op = if is_div { BinaryOp::Divide } else { BinaryOp::Modulo };
         let got = ConstantFolding.eval_int64(l, op, r);
-        kani::cover!(got.is_none());
-        kani::cover!(as_i64(&got) == Some(-3));
+        kani::cover!(got.is_none() && r != 0);
+        kani::cover!(got.is_some());
         if r == 0 {
             assert!(got.is_none(), "C02.int_div_by_zero_not_folded");
-        } else if l == i64::MIN && r == -1 {
-            // the quotient 2^63 does not fit: folding must decline (the remainder is 0 in SQL, declining is also fine)
-            assert!(got.is_none() || (!is_div && as_i64(&got) == Some(0)), "C02.int_div_overflow_not_folded");
-        } else {
-            let v = as_i64(&got);
-            assert!(v.is_some(), "C02.int_div_mod_folds");
-            let v = v.unwrap() as i128;
-            let (li, ri) = (l as i128, r as i128);
-            // characterise truncated division without dividing: l = q*r + m, |m| < |r|, sign(m) = sign(l) or 0
-            if is_div {
-                let m = li - v * ri;
-                assert!(m.abs() < ri.abs() && (m == 0 || (m < 0) == (li < 0)), "C02.int_div_truncates_toward_zero");
-            } else {
-                assert!(v.abs() < ri.abs() && (v == 0 || (v < 0) == (li < 0)), "C02.int_mod_sign_and_range");
-                assert!((li - v) % ri == 0, "C02.int_mod_congruent");
-            }
         }
+        if let Some(v) = &got {
+            assert!(matches!(v, ScalarValue::Int64(_)), "C02.int_div_mod_folds_to_bigint");
+        }
+        std::mem::forget(got);
     }
 
-    // @harness tiers=quick,thorough
+    // @harness tiers=thorough timeout=2400
     // @encodes optimizer::rules::constant_folding::ConstantFolding::eval_int64
-    // @bounds multiplication, operands in [-2^31, 2^31) x all i64 (one factor 32-bit so that the 128-bit reference product stays cheap to bit-blast)
-    // @oracle exact product when it fits in i64, else None
-    // @out both factors beyond 32 bits at once
+    // @bounds / and % with |l| < 2^20 and 0 < |r| < 2^10 (small widths so that the reference characterisation by multiplication stays cheap to bit-blast)
+    // @oracle SQL integer division truncates toward zero: l = q*r + m with |m| < |r| and m = 0 or sign(m) = sign(l); the folded value is that q resp. m
+    // @out the exactness of wider operands (only panic-freedom is decided at full width)
     #[kani::proof]
+    #[kani::unwind(3)]
+    fn fold_int64_div_mod_truncates_toward_zero() {
+        let (l, r): (i64, i64) = kani::any();
+        kani::assume(l > -(1 << 20) && l < (1 << 20));
+        kani::assume(r != 0 && r > -(1 << 10) && r < (1 << 10));
+        let q = as_i64(&ConstantFolding.eval_int64(l, BinaryOp::Divide, r));
+        let m = as_i64(&ConstantFolding.eval_int64(l, BinaryOp::Modulo, r));
+        kani::cover!(q == Some(-3) && m == Some(-1));
+        assert!(q.is_some() && m.is_some(), "C02.int_div_mod_folds");
+        let (q, m) = (q.unwrap(), m.unwrap());
+        assert!(q * r + m == l, "C02.int_div_mod_identity");
+        let (am, ar) = (if m < 0 { -m } else { m }, if r < 0 { -r } else { r });
+        assert!(am < ar, "C02.int_mod_smaller_than_divisor");
+        assert!(m == 0 || (m < 0) == (l < 0), "C02.int_mod_has_sign_of_dividend");
+    }
+
+    // @harness tiers=thorough timeout=2400
+    // @encodes optimizer::rules::constant_folding::ConstantFolding::eval_int64
+    // @bounds multiplication with |l| < 2^40 and |r| < 2^25 (products up to 2^65, so the overflow path is reachable), either operand order
+    // @oracle exact product (computed in i128) when it fits in i64, else "do not fold"
+    // @out both factors wide at once
+    #[kani::proof]
+    #[kani::unwind(3)]
     fn fold_int64_mul() {
         let (l, r): (i64, i64) = kani::any();
-        kani::assume(l >= -(1i64 << 31) && l < (1i64 << 31));
+        kani::assume(l > -(1i64 << 40) && l < (1i64 << 40));
+        kani::assume(r > -(1i64 << 25) && r < (1i64 << 25));
         let swap: bool = kani::any();
         let got = if swap {
             ConstantFolding.eval_int64(r, BinaryOp::Multiply, l)
@@ -130,6 +145,7 @@ mod __verif_c02 {
         } else {
             assert!(got.is_none(), "C02.int_mul_overflow_not_folded");
         }
+        std::mem::forget(got);
     }
 
     // @harness tiers=quick,thorough
@@ -137,6 +153,7 @@ mod __verif_c02 {
     // @bounds both booleans, every operator
     // @oracle two-valued AND / OR / = / <> ; every other operator is not folded
     #[kani::proof]
+    #[kani::unwind(3)]
     fn fold_bool() {
         let (l, r): (bool, bool) = kani::any();
         let op = any_op();
@@ -149,6 +166,7 @@ mod __verif_c02 {
             BinaryOp::NotEq => assert!(as_bool(&got) == Some(l != r), "C02.bool_ne"),
             _ => assert!(got.is_none(), "C02.bool_other_ops_not_folded"),
         }
+        std::mem::forget(got);
     }
 
     fn any_simple_scalar() -> ScalarValue {
@@ -167,6 +185,7 @@ mod __verif_c02 {
     // @bounds operands range over {NULL, BOOLEAN b, BIGINT i, DOUBLE f} with symbolic payloads; operators restricted to comparison/logical ones (no arithmetic, so no panic path is mixed in)
     // @oracle a NULL operand is never folded to TRUE/FALSE (NULL = NULL, NULL AND FALSE, NULL OR TRUE stay unevaluated here; the AND/OR identities are applied by fold_expr, which is outside); operands of different kinds are not folded
     #[kani::proof]
+    #[kani::unwind(3)]
     fn fold_never_evaluates_null_or_mixed_kinds() {
         let l = any_simple_scalar();
         let r = any_simple_scalar();
